@@ -48,16 +48,16 @@ PROPS = {
         "trusted_base": ["translated signature expressions (BExp) regenerated each run; hand models of zipContains, matchOleClsid, CRX, matroska, ciCheck/markupCheck/shebangCheck with checked indexing"],
     },
     "C03": {
-        "slices": ["tree", "corpus", "C03"],
+        "slices": ["tree", "corpus", "C03", "heap"],
         "relevant_diff": walk_not_shape,
         "assumptions": COMMON_ASSUME + ["detectors are arbitrary functions of (header, limit) in the theorems"],
-        "trusted_base": ["mime.go match/cloneHierarchy hand-modelled as Tree.walk; tied by walk ops (real verdict vector -> model walk = real Detect chain)"],
+        "trusted_base": ["mime.go match/cloneHierarchy hand-modelled as Tree.walk; tied by walk ops (real verdict vector -> model walk = real Detect chain)", "pointer level: newMIME/Extend/match/clone/cloneHierarchy/lookup/Parent transcribed over a heap (Model/Heap.lean); tied by heap ops (every node of the real pointer structure - name, parent pointer, children pointers - equals the model heap after every operation of a random history on a private tree) and realheap ops (the registered tree satisfies the decidable representation invariant, Model/HeapAbs.lean)"],
     },
     "C14": {
-        "slices": ["tree", "C14"],
+        "slices": ["tree", "C14", "heap"],
         "relevant_diff": walk_only,
         "assumptions": COMMON_ASSUME + ["extension names are fresh for the Lookup clause (DESIGN.md §9)"],
-        "trusted_base": ["(*MIME).Extend / lookup hand-modelled as Tree.extendAt / Tree.lookup; tied by xwalk/xlookup ops (runtime tree dump after every script = model tree)"],
+        "trusted_base": ["(*MIME).Extend / lookup hand-modelled as Tree.extendAt / Tree.lookup; tied by xwalk/xlookup ops (runtime tree dump after every script = model tree)", "pointer level: Model/Heap.lean tied by heap / realheap ops (whole-heap comparison after every operation; representation invariant decided on the dumped heaps)"],
     },
     "C05": {
         "slices": ["C05"],
